@@ -385,6 +385,7 @@ def refused_include_leaves_nothing(c, chk):
     ex = sym.Explorer(c.modules, max_visits=2, mod_sets=c.mod_sets, max_paths=50000)
     n = 0
     bad = None
+    unbalanced = None
     for p in ex.explore(fn):
         if p.end != 'ret' or p.retval == sym.C0:
             continue
@@ -392,10 +393,31 @@ def refused_include_leaves_nothing(c, chk):
         for fd in ow.analyse_path(p, fn.name):
             if fd.kind == 'leak':
                 bad = bad or fd
+        # ... and has left the include stack as deep as it found it
+        sp = [e for e in p.events if e.kind == 'store' and e.addr == ('g', '@cfg_include_stack_ptr')]
+        if sp:
+            from .. import bufsize
+            net = 0
+            for e in sp:
+                # each store writes (the current depth) + k: the global is re-read after calls, so the steps are added up
+                got = bufsize.lin(e.val)
+                lds = [t for t in (got.terms if got is not None else {}) if t[0] == 'ld' and t[1] == ('g', '@cfg_include_stack_ptr')]
+                if got is None or len(got.terms) != 1 or len(lds) != 1 or got.terms[lds[0]] != 1:
+                    net = None
+                    break
+                net += got.const
+            if net != 0:
+                unbalanced = unbalanced or (p, sp[-1], net)
     if bad is not None:
         chk.fail('R8.7', 'include-fail-leak', c.where(bad.ev.ins) if bad.ev is not None else c.where(fn),
                  'cfg_lexer_include() fails without releasing what it acquired (%s): every refused include() leaves a file open, '
                  'and when the descriptor table is full no context can parse or include a file any more' % bad.detail)
-    elif n:
-        chk.ok('R8.7', 'cfg_lexer_include: %d failing exits' % n, 'file closed and name released on each', sample=True)
+    elif n and unbalanced is None:
+        chk.ok('R8.7', 'cfg_lexer_include: %d failing exits' % n, 'file closed and name released on each; include stack as deep as on entry', sample=True)
+    if unbalanced is not None:
+        from .. import failpaths as _fp
+        p, e, net = unbalanced
+        chk.fail('R8.7', 'include-fail-depth', c.where(e.ins), 'cfg_lexer_include() can fail (%s) and leave the include stack %s than it found it: the slot '
+                 'pushed for the refused include is never popped - its file pointer and name are closed and released again when the parse is aborted, and every later '
+                 'include nests one level deeper' % (_fp.cond_text(p, 3), 'at an unknown depth' if net is None else '%d level(s) %s' % (abs(net), 'deeper' if net > 0 else 'shallower')))
     chk.floor('R8.7 failing exits of the include function', n, 4)
